@@ -1,12 +1,15 @@
 #!/bin/sh
-# usage: seedtest.sh <patch.diff> <prop> [prop...]   -- apply to /repo, run checks, revert
-# The evidence directory is saved and restored: evidence written while /repo is mutated is never kept.
+# usage: seedtest.sh <patch.diff> <prop> [prop...]
+# Applies the patch to a scratch copy of /repo's committed tree (git archive HEAD), runs the quick checks against it
+# (VERIF_REPO), removes the copy.  /repo itself and the evidence directory are not touched.
 patch=$1; shift
-sav=/var/tmp/verif-evidence-save.$$
-rm -rf "$sav"; cp -a /verif/evidence "$sav"
-cd /repo && git apply "$patch" || { echo "APPLY FAILED"; rm -rf "$sav"; exit 3; }
+scr=/var/tmp/verif-seedtest.$$
+rm -rf "$scr"; mkdir -p "$scr" && git -C /repo archive HEAD | tar -x -C "$scr" || exit 3
+(cd "$scr" && patch -p1 -s < "$patch") || { echo "APPLY FAILED"; rm -rf "$scr"; exit 3; }
 cd /verif
 mkdir -p /var/tmp/vt
-for p in "$@"; do ./vcheck $p > /var/tmp/vt/seed.out 2>&1; rc=$?; echo "== $p exit=$rc"; grep -E 'VIOLATION|UNDECIDED|failed obligation|clause:|at    :' /var/tmp/vt/seed.out | head -12; done
-git -C /repo checkout -- .
-rm -rf /verif/evidence; mv "$sav" /verif/evidence
+for p in "$@"; do
+  VERIF_REPO="$scr" VERIF_GEN_TAG="_st$$" VERIF_NO_EVIDENCE=1 ./vcheck $p > /var/tmp/vt/seed.$$.out 2>&1; rc=$?
+  echo "== $p exit=$rc"; grep -E 'VIOLATION|UNDECIDED|failed obligation|clause:|at    :' /var/tmp/vt/seed.$$.out | head -12
+done
+rm -rf "$scr" /var/tmp/vt/seed.$$.out /verif/gen/*_st$$*
